@@ -572,7 +572,7 @@ func genAction(r *vh.Rng, ups []conf_v1.Upstream) *conf_v1.Action {
 	case 0:
 		return &conf_v1.Action{Redirect: &conf_v1.ActionRedirect{URL: "http://www.nginx.com${request_uri}", Code: 301}}
 	case 1:
-		return &conf_v1.Action{Return: &conf_v1.ActionReturn{Code: 200, Type: "text/plain", Body: vh.Pick(r, []string{"Hello!", "a \"quoted\" body {x}; $host", "line\\n"}),
+		return &conf_v1.Action{Return: &conf_v1.ActionReturn{Code: 200, Type: "text/plain", Body: vh.Pick(r, []string{"Hello!", "a \\\"quoted\\\" body {x}; ${host}", "line\\n"}),
 			Headers: []conf_v1.Header{{Name: "x-coffee", Value: "espresso"}}}}
 	case 2:
 		p := &conf_v1.ActionProxy{Upstream: vh.Pick(r, ups).Name}
@@ -677,7 +677,7 @@ func genRoute(r *vh.Rng, path string, ups []conf_v1.Upstream, ns string) conf_v1
 		rt.Action = genAction(r, ups)
 	}
 	if r.Chance(1, 4) {
-		rt.ErrorPages = []conf_v1.ErrorPage{{Codes: []int{502, 503}, Return: &conf_v1.ErrorPageReturn{ActionReturn: conf_v1.ActionReturn{Code: 200, Type: "application/json", Body: "{\"message\": \"unavailable ${upstream_status}\"}",
+		rt.ErrorPages = []conf_v1.ErrorPage{{Codes: []int{502, 503}, Return: &conf_v1.ErrorPageReturn{ActionReturn: conf_v1.ActionReturn{Code: 200, Type: "application/json", Body: "{\\\"message\\\": \\\"unavailable ${upstream_status}\\\"}",
 			Headers: []conf_v1.Header{{Name: "x-debug", Value: "${upstream_status}"}}}}}}
 		if r.Bool() {
 			rt.ErrorPages = append(rt.ErrorPages, conf_v1.ErrorPage{Codes: []int{404}, Redirect: &conf_v1.ErrorPageRedirect{ActionRedirect: conf_v1.ActionRedirect{URL: "http://nginx.com/${status}", Code: 302}}})
@@ -908,24 +908,46 @@ func genWorld(r *vh.Rng, class string) *world {
 			case "vs":
 				w.addVS(r, ns, name, host, nil)
 			case "vsvsr":
+				// keys = the referenced VirtualServerRoutes (ns/name), refs = the references as written in the
+				// VirtualServer: a route of the VirtualServer's own namespace may be written without namespace.
+				// In dup mode the first VirtualServerRoute is referenced a second time under the nested prefix
+				// /vsr1/deeper, by either spelling (it must be attached once: fix 596022d).
 				nv := 1 + r.Intn(2)
-				var refs []string
-				for j := 0; j < nv; j++ {
+				dup := r.Chance(1, 3)
+				var keys []string
+				for j := 0; j < nv || (dup && j < 2); j++ {
 					vns := ns
-					if r.Chance(1, 2) {
+					if r.Chance(1, 2) && !(dup && j == 0 && r.Bool()) {
 						vns = vh.Pick(r, nsPool)
 					}
-					vname := vh.Pick(r, namePool)
-					refs = append(refs, vns+"/"+vname)
+					k := vns + "/" + vh.Pick(r, namePool)
+					if j == 1 && k == keys[0] {
+						k = vns + "/" + keys[0][strings.Index(keys[0], "/")+1:] + "-2"
+					}
+					keys = append(keys, k)
+				}
+				if dup {
+					keys = append(keys[:2], keys[0])
+				}
+				var refs []string
+				for _, k := range keys {
+					if strings.HasPrefix(k, ns+"/") && r.Bool() {
+						k = k[len(ns)+1:]
+					}
+					refs = append(refs, k)
 				}
 				w.addVS(r, ns, name, host, refs)
-				for j, ref := range refs {
+				for j, ref := range keys {
 					parts := strings.SplitN(ref, "/", 2)
 					if used["vr"+ref] {
 						continue
 					}
 					used["vr"+ref] = true
-					w.addVSR(r, parts[0], parts[1], host, []string{[]string{"/vsr1", "/vsr2", "/vsr1/deeper"}[j%3]})
+					pre := []string{"/vsr1", "/vsr2", "/vsr1/deeper"}[j%3]
+					if dup && j == 0 {
+						pre = "/vsr1/deeper" // valid under /vsr1 and under /vsr1/deeper
+					}
+					w.addVSR(r, parts[0], parts[1], host, []string{pre})
 				}
 			case "ts":
 				w.addTS(r, ns, name)
@@ -1025,6 +1047,21 @@ func genWitness(r *vh.Rng, w *world, class string) {
 				Subroutes: []conf_v1.Route{{Path: "/a/b/c", Action: &conf_v1.Action{Pass: "u"}}}}}
 		w.objs = append(w.objs, vsr, vs)
 		w.res = append(w.res, Res{Kind: "vs", NS: "a", Name: "web", Hosts: []string{"x.example.com"}, Paths: []string{"/a", "/a/b"}, Routes: []string{"/a->a/r", "/a/b->a/r"}},
+			Res{Kind: "vsr", NS: "a", Name: "r", Hosts: []string{"x.example.com"}, Paths: []string{"/a/b/c"}, Upstreams: []string{"u"}})
+	case "w-vsr-twice-spellings": // the same VirtualServerRoute referenced as r and as a/r under nested prefixes
+		vs := &conf_v1.VirtualServer{ObjectMeta: meta_v1.ObjectMeta{Name: "web", Namespace: "a"},
+			Spec: conf_v1.VirtualServerSpec{Host: "x.example.com", IngressClass: "nginx",
+				Routes: []conf_v1.Route{{Path: "/a", Route: "r"}, {Path: "/a/b", Route: "a/r"}}}}
+		if r.Bool() {
+			vs.Spec.Routes[0].Route, vs.Spec.Routes[1].Route = "a/r", "r"
+		}
+		vsr := &conf_v1.VirtualServerRoute{ObjectMeta: meta_v1.ObjectMeta{Name: "r", Namespace: "a"},
+			Spec: conf_v1.VirtualServerRouteSpec{Host: "x.example.com", IngressClass: "nginx",
+				Upstreams: []conf_v1.Upstream{{Name: "u", Service: "svc", Port: 80}},
+				Subroutes: []conf_v1.Route{{Path: "/a/b/c", Action: &conf_v1.Action{Pass: "u"}}}}}
+		w.objs = append(w.objs, vsr, vs)
+		w.res = append(w.res, Res{Kind: "vs", NS: "a", Name: "web", Hosts: []string{"x.example.com"}, Paths: []string{"/a", "/a/b"},
+			Routes: []string{"/a->" + vs.Spec.Routes[0].Route, "/a/b->" + vs.Spec.Routes[1].Route}},
 			Res{Kind: "vsr", NS: "a", Name: "r", Hosts: []string{"x.example.com"}, Paths: []string{"/a/b/c"}, Upstreams: []string{"u"}})
 	case "w-variable-namer": // safeNsName collision a-b/c vs a/b-c
 		w.flags.Plus, w.flags.DynWeights = true, true
@@ -1237,6 +1274,12 @@ func runWorld(w *world) (obs Obs) {
 			obs.Errors = append(obs.Errors, "updateall: "+firstLine(err.Error()))
 		}
 	}
+	if os.Getenv("VERIF_C07_DEBUG") != "" {
+		for _, m := range k8s.ProblemLog {
+			fmt.Fprintln(os.Stderr, "PROBLEM", m)
+		}
+	}
+	k8s.ProblemLog = nil
 	obs.Accepted = v.Accepted()
 	sort.Strings(obs.Accepted)
 	sort.Strings(obs.Errors)
@@ -1277,7 +1320,7 @@ func firstLine(s string) string {
 
 var witnessClasses = []string{"w-ingress-upstream-name", "w-ingress-path-brace", "w-ts-maxconns", "w-vsr-twice", "w-variable-namer",
 	"w-rewrite-backslash", "w-sticky-brace", "w-ts-hash-key", "w-limit-req-key", "w-minion-login-location", "w-minion-login-per-path",
-	"w-jwks-zone", "w-grpc-hc-noport", "w-cookie-expires", "w-lb-method-space"}
+	"w-jwks-zone", "w-grpc-hc-noport", "w-cookie-expires", "w-lb-method-space", "w-vsr-twice-spellings"}
 
 // ---------------------------------------------------------------- identifier schemes (model correspondence)
 
